@@ -15,6 +15,101 @@ P_MOD = 0x1a0111ea397fe69a4b1ba7b6434bacd764774b84f38512bf6730d2a0f6b0f6241eabff
 U64S = [0, 1, 2, 1 << 32, (1 << 32) + 1, 1 << 63, (1 << 64) - 1, (1 << 64) - 8]
 
 
+def g1_bad_points():
+    """compressed G1 encodings that a checked decoder must reject: on-curve points OUTSIDE the prime-order subgroup (x = 0,
+    small x with x^3+4 a square; such a point lies in the subgroup with probability 2^-126), an x with no y, x >= p,
+    infinity flag with a non-zero x, missing compression flag, infinity flag together with the sign flag"""
+    out = []
+    found = 0
+    x = 0
+    while found < 3:
+        rhs = (x * x * x + 4) % P_MOD
+        y = pow(rhs, (P_MOD + 1) // 4, P_MOD)
+        if y * y % P_MOD == rhs:
+            b = bytearray(x.to_bytes(48, "big")); b[0] |= 0x80
+            out.append(("non-subgroup-x=%d" % x, bytes(b)))
+            b2 = bytearray(b); b2[0] |= 0x20
+            out.append(("non-subgroup-x=%d-other-sign" % x, bytes(b2)))
+            found += 1
+        elif not any(n.startswith("off-curve") for n, _ in out):
+            b = bytearray(x.to_bytes(48, "big")); b[0] |= 0x80
+            out.append(("off-curve-x=%d" % x, bytes(b)))
+        x += 1
+    b = bytearray(P_MOD.to_bytes(48, "big")); b[0] |= 0x80; out.append(("x=p", bytes(b)))
+    b = bytearray(b"\xff" * 48); b[0] = 0x9f; out.append(("x=2^381-1", bytes(b)))
+    b = bytearray((5).to_bytes(48, "big")); b[0] |= 0xc0; out.append(("infinity-flag-nonzero-x", bytes(b)))
+    b = bytearray((0).to_bytes(48, "big")); b[0] |= 0xe0; out.append(("infinity-with-sign-flag", bytes(b)))
+    b = bytearray((0).to_bytes(48, "big")); out.append(("no-compression-flag", bytes(b)))
+    return out
+
+
+def fp2_sqrt(a0, a1):
+    """square root in F_p[u]/(u^2+1), or None"""
+    p = P_MOD
+    if a1 == 0:
+        r = pow(a0, (p + 1) // 4, p)
+        if r * r % p == a0:
+            return (r, 0)
+        r = pow((-a0) % p, (p + 1) // 4, p)
+        return (0, r) if r * r % p == (-a0) % p else None
+    n = (a0 * a0 + a1 * a1) % p
+    sn = pow(n, (p + 1) // 4, p)
+    if sn * sn % p != n:
+        return None
+    for s_ in (sn, (-sn) % p):
+        t = (a0 + s_) * pow(2, p - 2, p) % p
+        x0 = pow(t, (p + 1) // 4, p)
+        if x0 * x0 % p == t and x0 != 0:
+            x1 = a1 * pow(2 * x0 % p, p - 2, p) % p
+            return (x0, x1)
+    return None
+
+
+def g2_bad_points():
+    """compressed G2 encodings (x.c1 || x.c0, big endian, flags in the first byte) a checked decoder must reject"""
+    out = []
+    found = 0
+    k = 0
+    while found < 2 and k < 50:
+        x0, x1 = k, 0
+        # y^2 = x^3 + 4(1+u)
+        x2 = ((x0 * x0 - x1 * x1) % P_MOD, 2 * x0 * x1 % P_MOD)
+        x3 = ((x2[0] * x0 - x2[1] * x1) % P_MOD, (x2[0] * x1 + x2[1] * x0) % P_MOD)
+        rhs = ((x3[0] + 4) % P_MOD, (x3[1] + 4) % P_MOD)
+        if fp2_sqrt(*rhs) is not None:
+            b = bytearray(x1.to_bytes(48, "big") + x0.to_bytes(48, "big")); b[0] |= 0x80
+            out.append(("g2-non-subgroup-x=%d" % k, bytes(b)))
+            found += 1
+        elif not any(n.startswith("g2-off-curve") for n, _ in out):
+            b = bytearray(x1.to_bytes(48, "big") + x0.to_bytes(48, "big")); b[0] |= 0x80
+            out.append(("g2-off-curve-x=%d" % k, bytes(b)))
+        k += 1
+    b = bytearray(P_MOD.to_bytes(48, "big") + (1).to_bytes(48, "big")); b[0] |= 0x80; out.append(("g2-x.c1=p", bytes(b)))
+    b = bytearray((0).to_bytes(48, "big") + P_MOD.to_bytes(48, "big")); b[0] |= 0x80; out.append(("g2-x.c0=p", bytes(b)))
+    b = bytearray((0).to_bytes(96, "big")); b[0] |= 0xc0; b[95] = 1; out.append(("g2-infinity-flag-nonzero-x", bytes(b)))
+    b = bytearray((0).to_bytes(96, "big")); b[0] |= 0xc0; out.append(("g2-identity", bytes(b)))
+    return out
+
+
+BAD_SCALARS = [("scalar=r", R.to_bytes(32, "little")), ("scalar=r+1", (R + 1).to_bytes(32, "little")),
+               ("scalar=2^256-1", b"\xff" * 32), ("scalar=2^255", (1 << 255).to_bytes(32, "little"))]
+
+
+def slot_injections(b, g1_slots, g2_slots=(), scalar_slots=()):
+    """every ill-formed element in EVERY slot of a structure: (tag, bytes)"""
+    out = []
+    for name, off in g1_slots:
+        for tag, enc in g1_bad_points():
+            m = bytearray(b); m[off:off + 48] = enc; out.append(("slot-%s-%s" % (name, tag), bytes(m)))
+    for name, off in g2_slots:
+        for tag, enc in g2_bad_points():
+            m = bytearray(b); m[off:off + 96] = enc; out.append(("slot-%s-%s" % (name, tag), bytes(m)))
+    for name, off in scalar_slots:
+        for tag, enc in BAD_SCALARS:
+            m = bytearray(b); m[off:off + 32] = enc; out.append(("slot-%s-%s" % (name, tag), bytes(m)))
+    return out
+
+
 def mutations(rng, kind, b, n_flips, hdr_fields, hdr_be=True):
     """structure-aware mutants of a valid encoding `b` (bytes)"""
     out = []
@@ -74,13 +169,36 @@ def run(ctx, broken):
     m = bytearray(prover); m[off_ck + 8:off_ck + 8 + 48] = P_MOD.to_bytes(48, "little"); add("proverdec", "prover", "raw-point-limbs-p", bytes(m))
     m = bytearray(prover); m[off_ck + 8:off_ck + 8 + 96] = b"\xff" * 96; m[off_ck + 8 + 96] = 1; add("proverdec", "prover", "raw-identity-garbage", bytes(m))
     m = bytearray(prover); m[off_ck:off_ck + 8] = (0).to_bytes(8, "little"); add("proverdec", "prover", "commit-key-len-0", bytes(m))
+    # the verifier key carried inside the prover: every ill-formed commitment in every slot
+    p_lab, p_pk, p_ck = (int.from_bytes(prover[8 * i:8 * i + 8], "big") for i in range(3))
+    p_vk = 48 + p_lab + p_pk + p_ck
+    for tag, m in slot_injections(prover, [("prover-vk-commitment-%d" % i, p_vk + 8 + 48 * i) for i in (0, 7, 14)]):
+        add("proverdec", "prover", tag, m); cs[-1]["expect_prefix"] = "err"
     verifier = bytes.fromhex(enc["verifier"][0])
     for tag, m in mutations(rng, "verifier", verifier, nf, 6):
         add("vroundtrip", "verifier", tag, m)
     proof = bytes.fromhex(enc["proof"][0])
     for tag, m in mutations(rng, "proof", proof, nf, 0):
         add("proofdec", "proof", tag, m)
+    # every ill-formed group element / scalar in EVERY slot: the decoder must reject each of them (property level)
+    PROOF_G1 = ["a_comm", "b_comm", "c_comm", "d_comm", "z_comm", "t_low", "t_mid", "t_high", "t_fourth", "w_z", "w_zw"]
+    PROOF_SC = ["a", "b", "c", "d", "a_w", "b_w", "d_w", "q_arith", "q_c", "q_l", "q_r", "s1", "s2", "s3", "z"]
+    for tag, m in slot_injections(proof, [(n_, 48 * i) for i, n_ in enumerate(PROOF_G1)],
+                                  scalar_slots=[(n_, 528 + 32 * i) for i, n_ in enumerate(PROOF_SC)]):
+        add("proofdec", "proof", tag, m); cs[-1]["expect_prefix"] = "err"
+    lab_len = int.from_bytes(verifier[0:8], "big"); vk_len = int.from_bytes(verifier[8:16], "big")
+    vk_off = 48 + lab_len; ok_off = vk_off + vk_len
+    VK_G1 = ["q_m", "q_l", "q_r", "q_o", "q_f", "q_c", "q_arith", "q_range", "q_logic", "q_fixed", "q_var", "s1", "s2", "s3", "s4"]
+    for tag, m in slot_injections(verifier, [("vk-commitment-%d" % i, vk_off + 8 + 48 * i) for i in range(15)] + [("opening-g", ok_off)],
+                                  g2_slots=[("opening-h", ok_off + 48), ("opening-x_h", ok_off + 144)]):
+        add("vroundtrip", "verifier", tag, m); cs[-1]["expect_prefix"] = "err"
+    m = bytearray(verifier); m[ok_off:ok_off + 48] = bytes([0xc0]) + b"\x00" * 47
+    add("vroundtrip", "verifier", "slot-opening-g-identity", bytes(m)); cs[-1]["expect_prefix"] = "err"
     pp = bytes.fromhex(enc["pp"][0])
+    npts = (len(pp) - 240) // 48
+    for tag, m in slot_injections(pp, [("opening-g", 0)] + [("commit-key-%d" % i, 240 + 48 * i) for i in sorted(set([0, 1, npts // 2, npts - 1]))],
+                                  g2_slots=[("opening-h", 48), ("opening-x_h", 144)]):
+        add("ppdec", "public-parameters", tag, m); cs[-1]["expect_prefix"] = "err"
     for tag, m in mutations(rng, "pp", pp, nf // 2, 0) + [("truncated", pp[:c]) for c in (240, 241, 287, 288, 289, 240 + 48 * 3 + 1, len(pp) - 47)]:
         add("ppdec", "public-parameters", tag, m)
         # property level: an encoding that is not "opening key + whole 48-byte points (at least one)" is not well formed
@@ -122,6 +240,6 @@ def run(ctx, broken):
                   "flag bytes 1/2/3/255, limbs 0xff.., limbs = p, garbage identity, empty key), a verifier, a proof, public "
                   "parameters (identity opening-key points) and a raw commit key: bit flips, length fields set to 0/1/2/2^32/2^63/"
                   "u64::MAX/len+-1, truncation, extension, splices, 0xff / zero windows; debug-assertions + overflow-checks build. "
-                  "Outcome class and error kind vs the Lean model decoders; never a panic; peak allocation below 64*len+1MiB; "
+                  "EVERY slot of a proof (11 commitments, 15 scalars), of a verifier (15 key commitments, opening key g, h, x_h), of public parameters and of the verifier key inside a prover receives every kind of ill-formed element (on-curve points outside the subgroup, off-curve x, x >= p, bad flag combinations, identity where forbidden, scalars >= r): all must be rejected. Outcome class and error kind vs the Lean model decoders; never a panic; peak allocation below 64*len+1MiB; "
                   "provers accepted after mutation are used to prove (no panic, same result as the model).")
     return st
